@@ -230,9 +230,9 @@ def gen_runs(tier, seed):
 def mc_runs(tier):
     q = tier == "quick"
     d = 5 if q else 7
-    base = dict(rules="RuleBoth", sp="Sp123", maxitf=2, maxrx=2, maxrules=1, modes="ModesSmall")
+    base = dict(mode="mc", rules="RuleBoth", sp="Sp123", maxitf=2, maxrx=2, maxrules=1, modes="ModesSmall")
     runs = [("mc_plain", consts(hlen=d, **base), None),
-            ("mc_lineage", consts(fam="lineage", hlen=d - 1, rx="RxLinSmall", rules="RuleSp", lin="LinSmall", sp="Sp12",
+            ("mc_lineage", consts(fam="lineage", mode="mc", hlen=d - 1, rx="RxLinSmall", rules="RuleSp", lin="LinSmall", sp="Sp12",
                                   modes="ModesLin", maxlin=2, maxitf=1, presp="PreSpAll"), None),
             # vacuity guards: each transcribed deviation must be refuted
             ("dev_noclear", consts(hlen=4, VecDesign="noclear", **base), "refuted"),
